@@ -13,7 +13,7 @@ lists, the options, and any number of calls):
 
 Output (one line): `err <Error>` or
   `S <signature> ; M <name doc module wrapped async> ; A <annotations of the parameters, return> ;
-   D <def items> ; I <invocation items> ; <call outcome>,<call outcome>…`
+   D <def items> ; I <invocation items> (source text modulo white space) ; <call outcome>,<call outcome>…`
   call outcome: `E` (TypeError while binding), `?` (body did not evaluate), or
   `R<pos>/<kws>` (what `_call` received) followed, for plain wraps, by `=B<bound of f on that call>`.
 -/
@@ -72,7 +72,7 @@ def showSpec : Spec → String
   | .dstar n => s!"**p{n}"
 
 def showSpecs (l : List Spec) : String :=
-  "(" ++ ", ".intercalate (l.map showSpec) ++ ")"
+  "(" ++ ",".intercalate (l.map showSpec) ++ ")"
 
 def showCall (c : Call) : String := s!"{showNats c.pos}/{showPairs c.kws}"
 
@@ -109,8 +109,48 @@ def flags? (s : String) : Option Opts :=
     if (a = '0' ∨ a = '1') ∧ (b = '0' ∨ b = '1') then some ⟨a = '1', b = '1'⟩ else none
   | _ => none
 
+def bop? (s : String) : Option BOp :=
+  let rest := (s.drop 1).toString
+  match s.front with
+  | 'r' => rest.toNat?.map BOp.remove
+  | 'a' => match optPairs? rest with
+    | some [(z, d)] => some (.add z d false)
+    | _ => none
+  | 'k' => match optPairs? rest with
+    | some [(z, d)] => some (.add z d true)
+    | _ => none
+  | _ => none
+
+def bops? (s : String) : Option (List BOp) :=
+  if s = "-" then some [] else (splitOnChar s ',').mapM bop?
+
+/-- builder histories: `B <the 11 function fields> <ops> <call>*`, ops = `r3,a6:-,a6:41,k6:-,k6:42` -/
+def handleB (toks : List String) : String :=
+  match toks with
+  | a :: d :: va :: ko :: kd :: vk :: an :: rt :: asy :: doc :: md :: ops :: calls =>
+    match natList? a, natList? d, optNat? va, natList? ko, pairs? kd, optNat? vk, pairs? an,
+          optNat? rt, asy.toNat?, optNat? doc, optNat? md, bops? ops, calls.mapM call? with
+    | some a, some d, some va, some ko, some kd, some vk, some an, some rt, some asy, some doc,
+      some md, some ops, some calls =>
+      let f : Func := ⟨1, 1, doc, md, a, va, ko, vk, d, kd, an, rt, asy != 0, none, []⟩
+      match (FB.fromFunc f).run ops with
+      | .error e => s!"err {showErr e}"
+      | .ok fb =>
+        let dd := ",".intercalate ((fb.argNames false).map fun n => s!"{n}:{showOpt (get? n fb.defaultsDict)}")
+        let hdr := s!"N {showNats (fb.argNames false)} ; Q {showNats (fb.argNames true)} ; DD {dd} ; D {showSpecs fb.sigSpecs} ; I {showSpecs fb.invocationSpecs}"
+        match fb.getFunc 2 none fb.invocationSpecs with
+        | .error e => s!"{hdr} ; err {showErr e}"
+        | .ok w =>
+          let anns := ",".intercalate ((paramNames w).map fun n => s!"{n}:{showOpt (get? n w.ann)}")
+          let outs := calls.map (outcome f w false)
+          let asyS := if w.isAsync then "1" else "0"
+          s!"{hdr} ; S {showSig (sigOf w)} ; M {w.name} {showOpt w.doc} {showOpt w.module} {showOpt w.wrapped} {asyS} ; A {anns} r:{showOpt w.retAnn} ; {",".intercalate outs}"
+    | _, _, _, _, _, _, _, _, _, _, _, _, _ => "bad-op"
+  | _ => "bad-op"
+
 def handle (line : String) : String :=
   match words line with
+  | "B" :: toks => handleB toks
   | a :: d :: va :: ko :: kd :: vk :: an :: rt :: asy :: doc :: md :: inj :: exp :: fl :: calls =>
     match natList? a, natList? d, optNat? va, natList? ko, pairs? kd, optNat? vk, pairs? an,
           optNat? rt, asy.toNat?, optNat? doc, optNat? md, natList? inj, optPairs? exp, flags? fl,
